@@ -393,6 +393,11 @@ impl Installation {
         {
             let mut index_manager = self.index_manager.write().await;
             index_manager.add_entry(&encoding_key, archive_id, archive_offset, size)?;
+
+            // Persist the updated index. The data file already holds the
+            // object; without the .idx entry on disk it could not be found
+            // any more once this Installation is dropped and opened again.
+            index_manager.save_all()?;
         }
 
         info!(
